@@ -1247,3 +1247,18 @@ func (fl *File) ReadDir(n int) ([]DirEntry, error) {
 	}
 	return out, err
 }
+
+// RealPath resolves every symbolic link of path (simfilepath.EvalSymlinks).
+func RealPath(path string) (string, syscall.Errno) {
+	f := Cur
+	f.mu.Lock()
+	defer f.mu.Unlock()
+	r, e := f.resolve(path, true)
+	if e != 0 {
+		return "", e
+	}
+	if r.node == nil {
+		return "", syscall.ENOENT
+	}
+	return r.real, 0
+}
